@@ -92,7 +92,9 @@ def original_case(value: str, **kwargs: Any) -> str:
     # Not all of them are allowed in python identifiers, e.g. superscripts
     value = "".join(char for char in value if f"_{char}".isidentifier())
     # Then strip out leading digit and underscore characters
-    return re.sub(r"^[^a-zA-Z_]+", "", value)
+    value = re.sub(r"^[^a-zA-Z_]+", "", value)
+    # Two leading underscores are mangled inside class bodies, keep one
+    return re.sub(r"^__+", "_", value)
 
 
 def pascal_case(value: str, **kwargs: Any) -> str:
